@@ -673,6 +673,14 @@ func c10ResetCoversIngest(c *Ctx, r *Report) {
 							st := fa.X.Type().Underlying().(*types.Pointer).Elem().Underlying().(*types.Struct)
 							out[st.Field(fa.Field).Name()] = true
 						}
+						// *recv = T{…}: every field at once
+						if x.Addr == recv {
+							if st, ok := recv.Type().Underlying().(*types.Pointer).Elem().Underlying().(*types.Struct); ok {
+								for i := 0; i < st.NumFields(); i++ {
+									out[st.Field(i).Name()] = true
+								}
+							}
+						}
 					case ssa.CallInstruction:
 						com := x.Common()
 						// methods called on the receiver itself
